@@ -548,6 +548,7 @@ def run(ctx):
         if mv is not None and (iv is None or isinstance(iv, dict) or iv != mv):
             retry.append(c)
     retried = len(retry)
+    retry = retry[:40]     # bound the sequential pass; what stays inconclusive is counted and reported
     if retry:
         i3, _ = diff.run_cases([{"impl": ["R\t%s.R" % c["id"]] + c["impl"]} for c in retry],
                                impl_env={"SV_TIMEOUT_MS": "60000"}, parallel=False)
@@ -595,6 +596,16 @@ def run(ctx):
         detail = ("implementation and model observations differ.\nprogram:\n%s\nmodel ops: %s\nimpl : %s\nmodel: %s\nraw: %s / %s" % (
             c["text"], c["ops"], json.dumps(iv), json.dumps(mv), impl.get(c["id"] + ".r"), impl.get(c["id"] + ".e")))
         findings.append(core.Finding("violation", sig, detail, strip(c)))
+    if inconclusive > max(3, len(cases) // 100):
+        # the implementation delivers no result (timeout / abort) even on the sequential re-run with a
+        # long time limit: the machine itself is broken (e.g. a trailing defect that stops the library
+        # from loading); never let that pass as "nothing to compare"
+        bad = [c for c in cases if judge(c)[1] is None][:1]
+        findings.append(core.Finding(
+            "violation", {"cls": "any", "part": "no-result"},
+            "%d of %d cases gave no result on the implementation (timeout/abort) after a sequential re-run; first: %s -> %r"
+            % (inconclusive, len(cases), bad[0]["id"] if bad else "?", impl.get(bad[0]["id"] + ".r") if bad else None),
+            strip(bad[0]) if bad else None))
     return {
         "evaluations": len(cases),
         "distinct_nontrivial": len(distinct),
